@@ -10,7 +10,48 @@ import (
 	"strings"
 	"sync"
 	"time"
+
+	"golang.org/x/tools/go/ssa"
+	"golang.org/x/tools/go/ssa/ssautil"
 )
+
+func (w *World) hasInvLiteral(fn *ssa.Function, prop string) bool {
+	for _, b := range fn.Blocks {
+		for _, ins := range b.Instrs {
+			if a, ok := ins.(*ssa.Alloc); ok && a.Comment == "complit" {
+				for _, ti := range w.typeInvsFor(deref(a.Type())) {
+					if hasProp(ti.Props, prop) {
+						return true
+					}
+				}
+			}
+		}
+	}
+	return false
+}
+
+func (w *World) exemptReason(name string) string {
+	for _, cf := range w.Files {
+		for _, r := range cf.Exempt {
+			if r.Pattern == name {
+				return r.Reason
+			}
+		}
+	}
+	return ""
+}
+
+func (w *World) isRelayed(name string) bool {
+	short := shortCallee(name)
+	for _, cf := range w.Files {
+		for _, r := range cf.Relayed {
+			if r == name || r == short || strings.HasSuffix(name, "."+r) || strings.HasSuffix(short, r) {
+				return true
+			}
+		}
+	}
+	return false
+}
 
 type FuncReport struct {
 	Name      string
@@ -24,6 +65,7 @@ type FuncReport struct {
 	VCBytes   int
 	Secs      float64
 	File      string
+	Scan      bool
 }
 
 type RunResult struct {
@@ -77,8 +119,63 @@ func selectPackages(repoDir, verifDir, prop string) ([]string, error) {
 			out = append(out, rel)
 		}
 	}
+	// packages with composite literals of types that carry an invariant for this property
+	for rel := range rels {
+		path, ok := contractPathFor(repoDir, verifDir, rel)
+		if !ok {
+			continue
+		}
+		cf, _ := ParseContractFile(path, "github.com/foxcpp/maddy/"+rel)
+		if cf == nil {
+			continue
+		}
+		for _, ti := range cf.TypeInvs {
+			if !hasProp(ti.Props, prop) {
+				continue
+			}
+			base := ti.Type
+			if i := strings.LastIndex(base, "."); i >= 0 {
+				base = base[i+1:]
+			}
+			for _, d := range packagesMentioning(repoDir, base+"{") {
+				dup := false
+				for _, o := range out {
+					if o == d {
+						dup = true
+					}
+				}
+				if !dup {
+					out = append(out, d)
+				}
+			}
+		}
+	}
 	sort.Strings(out)
 	return out, nil
+}
+
+// packagesMentioning lists package dirs (relative) under framework/ and internal/ whose non-test sources contain needle.
+func packagesMentioning(repoDir, needle string) []string {
+	seen := map[string]bool{}
+	for _, top := range []string{"framework", "internal"} {
+		filepath.Walk(filepath.Join(repoDir, top), func(p string, info os.FileInfo, err error) error {
+			if err != nil || info.IsDir() || !strings.HasSuffix(p, ".go") || strings.HasSuffix(p, "_test.go") {
+				return nil
+			}
+			data, err := os.ReadFile(p)
+			if err == nil && strings.Contains(string(data), needle) {
+				rel, _ := filepath.Rel(repoDir, filepath.Dir(p))
+				seen[rel] = true
+			}
+			return nil
+		})
+	}
+	var out []string
+	for d := range seen {
+		out = append(out, d)
+	}
+	sort.Strings(out)
+	return out
 }
 
 func verify(repoDir, verifDir, prop, tier, fnFilter, dump string, overlay map[string][]byte) (*RunResult, error) {
@@ -110,11 +207,50 @@ func verify(repoDir, verifDir, prop, tier, fnFilter, dump string, overlay map[st
 		names = append(names, n)
 	}
 	sort.Strings(names)
+	// literal scan: every function containing a composite literal of a type with an invariant for this property
+	scanProp := ""
+	for _, tis := range w.typeInvs {
+		for _, ti := range tis {
+			if hasProp(ti.Props, prop) && prop != "" {
+				scanProp = prop
+			}
+		}
+	}
+	synthetic := map[string]*FuncContract{}
+	if scanProp != "" && fnFilter == "" {
+		have := map[string]bool{}
+		for _, n := range names {
+			have[n] = true
+		}
+		for fn := range ssautil.AllFunctions(w.Prog) {
+			if fn.Synthetic != "" || fn.Syntax() == nil || len(fn.Blocks) == 0 {
+				continue
+			}
+			root := fn
+			for root.Parent() != nil {
+				root = root.Parent()
+			}
+			if root.Pkg == nil || w.SSAPkgs[root.Pkg.Pkg.Path()] == nil {
+				continue
+			}
+			if have[fn.String()] || !w.hasInvLiteral(fn, scanProp) || w.isRelayed(fn.String()) {
+				continue
+			}
+			synthetic[fn.String()] = &FuncContract{Name: fn.String(), Props: []string{prop}, ModifiesAll: true, Loops: map[int][]*Clause{}, Pkg: root.Pkg.Pkg.Path(), File: "(literal scan)"}
+			names = append(names, fn.String())
+		}
+		sort.Strings(names)
+	}
 	sem := make(chan struct{}, 16)
 	var wg sync.WaitGroup
 	var mu sync.Mutex
 	for _, n := range names {
 		c := w.Contracts[n]
+		isScan := false
+		if c == nil {
+			c = synthetic[n]
+			isScan = true
+		}
 		fn := w.FindFunc(n)
 		fr := &FuncReport{Canon: n, Name: shortCallee(n), File: c.File}
 		res.Funcs = append(res.Funcs, fr)
@@ -128,6 +264,8 @@ func verify(repoDir, verifDir, prop, tier, fnFilter, dump string, overlay map[st
 			continue
 		}
 		v := NewFnVC(w, fn, c)
+		v.LitProp = scanProp
+		fr.Scan = isScan
 		wg.Add(1)
 		go func() {
 			defer wg.Done()
@@ -147,6 +285,9 @@ func verify(repoDir, verifDir, prop, tier, fnFilter, dump string, overlay map[st
 				fr.Vacuous, fr.CtxStatus = vac, cs
 			}()
 			mu.Lock()
+			for _, o := range v.obligs {
+				o.Exempt = w.exemptReason(o.Name)
+			}
 			fr.Obligs = v.obligs
 			fr.Notes = v.notes
 			for a := range v.assumedCallees {
@@ -217,6 +358,13 @@ func printHuman(res *RunResult, verbose bool) {
 			good := o.Result == "unsat"
 			if o.IsCover {
 				good = o.Result == "sat"
+			}
+			if o.Exempt != "" {
+				total--
+				if verbose {
+					fmt.Printf("   exempt   %-60s %s (%s)\n", o.Name, o.Result, o.Exempt)
+				}
+				continue
 			}
 			if good {
 				ok++
